@@ -543,7 +543,7 @@ func init() {
 				}
 				us = append(us, c10SerialNamed("overlapping-keepalives", d, "same-client-twice", b))
 				// ... also while time passes during the overlap and a reconnect is queued behind a keep-alive
-				us = append(us, c10SerialNamed("overlapping-keepalives", d, "two-updates-vs-clock", b), c10SerialNamed("overlapping-keepalives", d, "reconnect-vs-update-vs-clock", b))
+				us = append(us, c10SerialNamed("overlapping-keepalives", d, "two-updates-vs-clock", b), c10SerialNamed("overlapping-keepalives", d, "reconnect-vs-update-vs-clock", b), c10SerialNamed("overlapping-keepalives", d, "update-vs-reconnect-vs-clock", b))
 				if d == vh.Memory {
 					us = append(us, c10SerialNamed("overlapping-keepalives", d, "queued-then-late", b))
 				}
